@@ -1,7 +1,8 @@
 """Translator plugin: the error-rate formulas of fundamental.py -> Lean (Generated/C16Formulas.lean).
 
 Real-expression fragment: names, numeric literals, + - * /, `** <int literal>`,
-`** <name>` (natural power), calls np.sqrt / math.sqrt / math.sin / qfunc /
+`** <name>` (natural power), `10 ** e` == `pow(10, e)`, `erfc(y)` == `2 * qfunc(sqrt(2) * y)` (only while
+util/misc.py defines `qfunc(x)` as `0.5 * erfc(x / math.sqrt(2))` or an equivalent listed spelling), calls np.sqrt / math.sqrt / math.sin / qfunc /
 dB2Linear / level2bits(self._M) / self.<translated method>(SNR[, L]), attributes
 self._M / self.K, module constant PI.  Anything else raises => tie broken.
 The emitted definitions are polymorphic in the scalar (same classes as the hand
@@ -12,6 +13,7 @@ import ast
 import os
 
 from harness.translate import HEADER, TranslateError, find_fn, parse_file, strip_doc
+from harness.gen import norm
 
 
 def lit(v):
@@ -33,6 +35,9 @@ class RealTr:
         self.classes = classes  # ClassDef nodes searched (in order) for private helpers to inline
         self.opaque = opaque or {}  # python method name -> Lean term standing for its value (a parameter)
         self.depth = 0
+        self.erfc_is_2q = RealTr.erfc_default
+
+    erfc_default = False            # set by gen() when `erfc` in fundamental.py is scipy's and qfunc is defined through it
 
     def helper(self, name):
         """the private method / static helper `name` of the class chain (to be inlined), or None"""
@@ -83,6 +88,9 @@ class RealTr:
             raise TranslateError('unknown attribute self.' + e.attr)
         if isinstance(e, ast.BinOp):
             if isinstance(e.op, ast.Pow):
+                if isinstance(e.left, ast.Constant) and not isinstance(e.left.value, bool) \
+                        and isinstance(e.left.value, (int, float)) and e.left.value == 10:
+                    return '(Fn.pow10 %s)' % self.expr(e.right, env)         # 10 ** x == pow(10, x)
                 base = self.expr(e.left, env)
                 if isinstance(e.right, ast.Constant) and e.right.value == 2:
                     return '(%s * %s)' % (base, base)
@@ -109,10 +117,12 @@ class RealTr:
                 return '(Trig.sin %s)' % args[0]
             if name == 'qfunc' and len(args) == 1:
                 return '(Q %s)' % args[0]
+            if name == 'erfc' and len(args) == 1 and self.erfc_is_2q:
+                # qfunc(x) IS 0.5 * erfc(x / sqrt(2)) (checked in util/misc.py by `erfc_rule_ok`), hence over the
+                # reals erfc(y) = 2 * qfunc(sqrt(2) * y): the same `Q` stands for both
+                return '(((2 : Nat) : α) * (Q ((Trig.sqrt ((2 : Nat) : α)) * %s)))' % args[0]
             if name == 'dB2Linear' and len(args) == 1:
                 return '(dB2Linear %s)' % args[0]
-            if name == 'pow' and len(e.args) == 2 and isinstance(e.args[0], ast.Constant) and e.args[0].value == 10:
-                return '(Fn.pow10 %s)' % args[1]
             if name == 'level2bits' and ast.unparse(e.args[0]) == 'self._M':
                 return '(k : α)'
             if name is not None and name.startswith('self.') and name[5:] in self.opaque:
@@ -130,7 +140,7 @@ class RealTr:
         raise TranslateError('unsupported expression ' + ast.dump(e)[:80])
 
     def body(self, fn, env):
-        stmts = strip_doc(fn.body)
+        stmts = strip_doc(norm.canon_fn(fn).body)          # pow(a, b) -> a ** b
         out = ''
         for s in stmts[:-1]:
             if not (isinstance(s, ast.Assign) and len(s.targets) == 1 and isinstance(s.targets[0], ast.Name)):
@@ -143,6 +153,33 @@ class RealTr:
         if not isinstance(last, ast.Return):
             raise TranslateError('last statement must be return in ' + fn.name)
         return out + self.expr(last.value, env)
+
+
+def erfc_rule_ok(repo, fund):
+    """`erfc(y)` may be read as `2 * Q(sqrt(2) * y)` iff the module's `erfc` is scipy.special's and
+    util/misc.py defines `qfunc(x)` as `0.5 * erfc(x / math.sqrt(2))` with the same scipy function"""
+    def scipy_erfc(tree):
+        hits = [n for n in tree.body if isinstance(n, ast.ImportFrom) and n.module == 'scipy.special'
+                and any(a.name == 'erfc' and a.asname in (None, 'erfc') for a in n.names)]
+        rebound = [n for n in ast.walk(tree) if isinstance(n, ast.Name) and n.id == 'erfc' and isinstance(n.ctx, ast.Store)]
+        rebound += [n for n in ast.walk(tree) if isinstance(n, (ast.FunctionDef, ast.ClassDef)) and n.name == 'erfc']
+        return len(hits) == 1 and not rebound
+    misc = parse_file(os.path.join(repo, 'pyphysim/util/misc.py'))
+    if not (scipy_erfc(fund) and scipy_erfc(misc)):
+        return False
+    q = strip_doc(find_fn(misc, 'qfunc').body)
+    if len(q) != 1 or not isinstance(q[0], ast.Return):
+        return False
+    v = q[0].value
+    if isinstance(v, ast.Call) and isinstance(v.func, ast.Name) and v.func.id == 'cast' and len(v.args) == 2:
+        v = v.args[1]
+    imp = [n for n in fund.body if isinstance(n, ast.ImportFrom) and n.module == 'pyphysim.util.misc'
+           and any(a.name == 'qfunc' and a.asname in (None, 'qfunc') for a in n.names)]
+    # spellings of  qfunc(x) = erfc(x / sqrt 2) / 2   (sqrt(0.5) = 1 / sqrt(2) over the reals)
+    scaled = ['x / math.sqrt(%s)' % t for t in ('2', '2.0')] + ['math.sqrt(0.5) * x', 'x * math.sqrt(0.5)']
+    forms = ['0.5 * erfc(%s)' % a for a in scaled] + ['erfc(%s) / %s' % (a, t) for a in scaled for t in ('2', '2.0')]
+    return ast.unparse(v) in forms and len(imp) == 1 \
+        and [a.arg for a in find_fn(misc, 'qfunc').args.args] == ['x']
 
 
 CLS = '{α : Type} [Add α] [Sub α] [Mul α] [Div α] [NatCast α] [Trig α] [Fn α]'
@@ -182,6 +219,7 @@ def gen(repo):
     fund = parse_file(os.path.join(repo, 'pyphysim/modulators/fundamental.py'))
     conv = parse_file(os.path.join(repo, 'pyphysim/util/conversion.py'))
     cM, cP, cB, cQ = (find_class(fund, n) for n in ('Modulator', 'PSK', 'BPSK', 'QAM'))
+    RealTr.erfc_default = erfc_rule_ok(repo, fund)
     out = []
     tr = RealTr({})
     f = find_fn(conv, 'dB2Linear')
